@@ -19,6 +19,7 @@ Functions:
 import hashlib
 import json
 import os
+import uuid
 
 from dataclasses import dataclass
 from pathlib import Path
@@ -714,9 +715,17 @@ def _download_from_resources(
     """
 
     def _worker(cache_miss: CacheMiss) -> bool:
+        # Download and post process under a temporary name that is unique to
+        # this attempt and does not match the cache file pattern; move it in
+        # place only once it is complete. A failed or interrupted attempt then
+        # never leaves a partial file under the final name, where a later
+        # lookup (or a restart on the same directory) would take it for a
+        # valid cache entry.
+        temporary_filepath = f"{cache_miss.filepath}.{uuid.uuid4().hex}.part"
         try:
-            cache_miss.download_function(cache_miss.uri, cache_miss.filepath)
-            cache_miss.post_process_function(cache_miss.filepath)
+            cache_miss.download_function(cache_miss.uri, temporary_filepath)
+            cache_miss.post_process_function(temporary_filepath)
+            os.replace(temporary_filepath, cache_miss.filepath)
             return True
         except _RemoteResourceUriNotFound as e:
             if cache_miss.allow_for_missing_files:
@@ -726,6 +735,9 @@ def _download_from_resources(
             else:
                 raise e
             return False
+        finally:
+            if os.path.exists(temporary_filepath):
+                os.remove(temporary_filepath)
 
     # construct the arguments to be used for parallel downloading of files.
     # Specifically, we need to match the right resource for downloading to the
